@@ -2,6 +2,8 @@ import DaskModel.Model.TextBlocks
 import DaskModel.Lemmas.TextSeek
 import DaskModel.Lemmas.TextOffsets
 import DaskModel.Lemmas.TextSplit
+import DaskModel.Lemmas.TextLines
+import DaskModel.Lemmas.Round53
 /-! # C50 — block-wise text reading reproduces the file exactly (theorems)
 
 Statement: for any file contents, delimiter and blocksize, the blocks from `read_bytes` concatenate to
@@ -187,6 +189,71 @@ theorem decode_lines_end_with_delimiter (d t : List Nat) (hd : d ≠ []) :
 
 example : decode [124, 124] [97, 124, 124, 98, 124, 124] = some [[97, 124, 124], [98, 124, 124]] := by decide
 example : decode [124] [97, 124, 98] = some [[97, 124], [98]] := by decide
+
+/-! ## 3b. `read_text`: the lines do not depend on the blocksize (border-free delimiters) -/
+
+theorem mapM_decode (d : List Nat) (hd : d ≠ []) (blocks : List (List Nat)) :
+    blocks.mapM (decode d) = some (blocks.map (lines d)) := by
+  induction blocks with
+  | nil => rfl
+  | cons b bs ih => simp [List.mapM_cons, decode_eq_lines d b hd, ih]
+
+/-- **`lines_blocksize_independent`**: for a BORDER-FREE delimiter (no proper non-empty prefix of it is
+    also a suffix: every single byte, `\r\n`, `ab`, `abc`, …), every file content and every blocksize,
+    `read_text` returns the same lines as with `blocksize=None`, and those are the file split after each
+    delimiter with no empty trailing element (`refLines`).
+    (For delimiters WITH a border the statement is false: `lines_blocksize_independent_refuted`.) -/
+theorem lines_blocksize_independent (A : FArith) (hA : GoodArith A) (d data : List Nat) (hd : d ≠ [])
+    (hbf : BorderFree d) (b : Nat) (hb : 0 < b) (hsz : data.length < 2 ^ 53) :
+    readTextLines A d data (some b) = readTextLines A d data none ∧
+    readTextLines A d data none = refLines d data := by
+  have hnone : readTextLines A d data none = some (lines d data) := by
+    simp only [readTextLines, fileToBlocks]; exact decode_eq_lines d data hd
+  refine ⟨?_, by rw [hnone, ← decode_eq_refLines d data hd, decode_eq_lines d data hd]⟩
+  rw [hnone]
+  by_cases hs : data.length = 0
+  · have : data = [] := List.length_eq_zero_iff.mp hs
+    subst this
+    simp [readTextLines, fileBlocks, plan, offsets, lengthsOf, lines, linesAux_nil]
+  · obtain ⟨offs, ho, h0, hpw, hlt⟩ := offsets_planOK A hA data.length b (by omega) hb hsz
+    have hfb : fileBlocks A data d (some b) = some (blocksOf data d offs) := by
+      simp [fileBlocks, plan, ho, blocksOf]
+    simp only [readTextLines, hfb, Option.bind_eq_bind, Option.bind_some, mapM_decode d hd]
+    cases offs with
+    | nil => simp at h0
+    | cons o rest =>
+      have : o = 0 := by simpa using h0
+      subst this
+      have := blocksOf_lines hd hbf rest 0 hpw hlt
+      rw [seekPos_zero, List.drop_zero] at this
+      simp only [Option.pure_def, Option.some.injEq]
+      rw [← this, List.flatMap_def]
+
+example : BorderFree [13, 10] := by unfold BorderFree; decide
+example : BorderFree [124] := by unfold BorderFree; decide
+example : ¬ BorderFree [97, 97] := by unfold BorderFree; decide
+
+/-! ## 3c. the same for the real arithmetic
+
+`ieee_good : GoodArith ieee` (Lemmas/Round53.lean) discharges the assumption on the double arithmetic:
+the fixed-point model of IEEE round-to-nearest-even that the harness diffs against CPython satisfies it. -/
+
+/-- `offsets_cover` for IEEE doubles: every file of 1 … 2^53 − 1 bytes, every blocksize ≥ 1 -/
+theorem offsets_cover_ieee (size bs : Nat) (hs : 0 < size) (hb : 0 < bs) (hsz : size < 2 ^ 53) :
+    ∃ offs lens, plan ieee size bs = some (offs, lens) ∧ offs.head? = some 0 ∧ offs.Pairwise (· < ·) ∧
+      (∀ o ∈ offs, o < size) ∧ lens.length = offs.length ∧ (∀ l ∈ lens, 0 < l) ∧ lens.sum = size :=
+  offsets_cover ieee ieee_good size bs hs hb hsz
+
+theorem blocks_concat_file_ieee (data d : List Nat) (hd : d ≠ []) (bs : Option Nat)
+    (hb : ∀ b, bs = some b → 0 < b) (hsz : data.length < 2 ^ 53) :
+    ∃ blocks, fileBlocks ieee data d bs = some blocks ∧ blocks.flatten = data :=
+  blocks_concat_file ieee ieee_good data d hd bs hb hsz
+
+theorem lines_blocksize_independent_ieee (d data : List Nat) (hd : d ≠ []) (hbf : BorderFree d) (b : Nat)
+    (hb : 0 < b) (hsz : data.length < 2 ^ 53) :
+    readTextLines ieee d data (some b) = readTextLines ieee d data none ∧
+    readTextLines ieee d data none = refLines d data :=
+  lines_blocksize_independent ieee ieee_good d data hd hbf b hb hsz
 
 /-! ## 4. refutation witnesses (statements that are / were false of the code) -/
 
